@@ -8,7 +8,9 @@
 // equal to abiref.Enc; it MUST be rejected (integer out of range, wrong fixed-array or tuple
 // arity, non-integral text / JSON number for an integer type); or it MAY be rejected but, if
 // accepted, must be encoded exactly (integral numbers spelled with a fraction or exponent,
-// float64 values of magnitude >= 2^63).
+// float64 values of magnitude >= 2^63).  Histories on long-lived objects (in-place edit +
+// re-validation, kept results, caller-owned buffers, one shared definition under concurrency) are
+// judged by the sequence kinds in seq_test.go.
 package c02
 
 import (
@@ -991,7 +993,7 @@ func TestCheck(t *testing.T) {
 		c, nt, cl := genHistory(rt, rec, noNegFixed)
 		kHist.Check(rt, c, nt, cl...)
 	})
-	rec.Rapid(t, "shared", rec.N(40, 200), func(rt *rapid.T) {
+	rec.Rapid(t, "shared", rec.N(40, 100), func(rt *rapid.T) {
 		c, nt, cl := genShared(rt, rec, noNegFixed)
 		kShared.Check(rt, c, nt, cl...)
 	})
